@@ -132,11 +132,15 @@ pub fn random_stream(rng: &mut Rng, max_states: usize, msd: bool) -> StreamCase 
     let nwin = windows.len();
     let v = voicing(rng, n, msd);
     let short = rng.chance(0.4);
+    let zero_means = rng.chance(0.15);
     let stream = (0..n)
         .map(|i| {
             let ps = (0..nwin * veclen)
                 .map(|k| {
-                    let m = if k < veclen { rng.uniform(-3.0, 3.0) } else { rng.uniform(-0.5, 0.5) };
+                    // value classes: exactly zero means (both signs) — what a stationary segment's dynamic features are
+                    // (seeded change C05g: an observation with mean 0 dropped together with its precision)
+                    let m = if zero_means && rng.chance(0.5) { if rng.chance(0.5) { 0.0 } else { -0.0 } }
+                        else if k < veclen { rng.uniform(-3.0, 3.0) } else { rng.uniform(-0.5, 0.5) };
                     MeanVari(m, rng.uniform(0.05, 3.0))
                 })
                 .collect();
